@@ -324,18 +324,19 @@ _add(Prop(
            "formulas and sine's call structure at every phase, sine's argument 2*pi*p at 8 concrete phases (every phase: "
            "thorough); ConstHz step at 6 concrete (hz, rate) pairs (a symbolic pair - one f64 division on each side of the comparison - did not finish in 3000 s); Hz pulls: 3 frames; noise: range "
            "and no-panic for EVERY u64 seed (2 frames), clone/restart/shifted-seed agreement and the hash value at 6 "
-           "concrete seeds incl. u64::MAX; simplex: any stored phase in [0, 65536)",
+           "concrete seeds incl. u64::MAX; simplex: any stored phase in [0, 65536): finite, in-bounds, "
+           "|out| <= 2 for every phase and |out| <= 1 at 12 concrete phases",
     outside="(the phase ADVANCE 'next = (phase + step) wrapped into [0,1)' is NOT decided by the Kani harnesses - this "
             "Kani/CBMC evaluates float `%` to 0.0 for every operand pair - but by the second engine lib/phase_smt.py: the MIR "
             "of Phase::next_phase_wrapped_to / next_phase is symbolically executed into SMT-LIB and cvc5/z3 show, for every "
             "stored phase, every finite step >= 0 and both moduli dasp uses, that the call returns the stored phase and leaves "
             "a phase in [0,m) that differs from phase+step by a non-negative integer multiple of m); outside: the simplex "
-            "amplitude bound |out| <= 1 (nine dependent symbolic f64 products with a 1.6e-4 margin); numeric accuracy of "
+            "amplitude bound |out| <= 1 for EVERY phase (did not finish in 3000 s; |out| <= 2 is decided for every phase); numeric accuracy of "
             "sin; purity of noise at symbolic seeds (equivalence of two chains of symbolic 64-bit multipliers: > 900 s)",
     stubs=["dasp_signal::ops::f64::sin -> recording marker returning a harness-chosen value in [-1,1] (sine_structure, "
            "sine_argument_any_phase)"],
     assumptions=["|sin(x)| <= 1 (CBMC's own model, or the marker's contract)"],
-    rules=[{"match": r"sine_argument_any_phase|coarse_amplitude_bound_any_phase", "tier": "thorough", "timeout": 3000}],
+    rules=[{"match": r"sine_argument_any_phase", "tier": "thorough", "timeout": 3000}],
     extra_engines=["phase_smt"],
     design_ref="DESIGN.md §4 C17",
     claim="The solver shows for every finite non-negative step that the phase starts at 0, every yielded phase is the "
@@ -356,7 +357,8 @@ _add(Prop(
     bounds="rectifiers: every value of all 14 formats (full-wave under 'negated amplitude representable'), mono and 2 "
            "channels; envelope: ONE step from any previous envelope, any input frame and any attack/release gains in [0,1] "
            "for i16 and u8 (positive half-wave), [i16;2] (full-wave) and f32 (full-wave) - quick tier: gains on the grid "
-           "k/256 and (f32 format) 12-bit mantissas, thorough tier: any f32 gain / value; gains/setters with powf replaced "
+           "k/256, thorough tier: any f32 gain; the f32-format step uses 12-bit mantissas over 2^-20..2^20 in both tiers "
+           "(arbitrary f32 values with arbitrary gains did not finish in 3000 s); gains/setters with powf replaced "
            "by a recording marker; adaptor: 2 frames",
     outside="the numeric value of exp(-1/n) (libm; CBMC's powf is unconstrained); monotone convergence over long constant "
             "inputs (follows from the step relation with 0 <= gain <= 1, not separately decided); i64/f64 envelope steps; "
